@@ -6,6 +6,7 @@ import (
 	"bytes"
 	"encoding/json"
 	"fmt"
+	"math/big"
 	"os"
 	"syscall"
 	"testing"
@@ -269,10 +270,59 @@ func TestVX_C13(t *testing.T) {
 	} // messages whose bit length (with the 32 bytes of ZA in front) crosses 2^32: thorough tier only (half a gigabyte is
 	// hashed three times per case). The message is untouched anonymous memory (all zero, costs no RAM); e comes from the
 	// streaming reference.
+	// signatures at the edges of the ranges through the message-level entry points: for e = SM3(za||M) and a nonce k the
+	// private key is solved so that s is 1, 2, n-2 or n-1 (d = (k-s)/(s+r)); the signer must produce exactly (r, s) and
+	// VerifyZa must accept it, as VerifyHashed does on e
+	for si, sv := range []*big.Int{bigOne, new(big.Int).Add(bigOne, bigOne), new(big.Int).Sub(bigN, new(big.Int).Add(bigOne, bigOne)), new(big.Int).Sub(bigN, bigOne)} {
+		for mi := 0; mi < 3; mi++ {
+			n++
+			if !vx.MineIdx(n) {
+				continue
+			}
+			za := vx.Fill(fmt.Sprintf("c13edge-za%d", mi), 32)
+			msg := vx.Fill(fmt.Sprintf("c13edge-msg%d", mi), 20+17*mi)
+			e := sm2ref.E(za, msg)
+			kv := modN(bi(vx.Fill(fmt.Sprintf("c13edge-k%d-%d", si, mi), 32)))
+			x1 := sm2ref.BaseMul(kv).X
+			rv := modN(new(big.Int).Add(bi(e[:]), x1))
+			den := modN(new(big.Int).Add(sv, rv))
+			if rv.Sign() == 0 || den.Sign() == 0 || modN(new(big.Int).Add(rv, kv)).Sign() == 0 {
+				continue
+			}
+			d := modN(new(big.Int).Mul(modN(new(big.Int).Sub(kv, sv)), invN(den)))
+			if !sm2ref.ValidKey(d) {
+				continue
+			}
+			px, py := sm2ref.Pub(d)
+			want, werr := sm2ref.Sign(stream(b32(kv)), d, e[:])
+			if werr != nil || bi(want.S).Cmp(sv) != 0 {
+				panic("harness: solved key does not give the intended s")
+			}
+			r.Eval(3)
+			cs := c13case{"edge-s", 0, len(msg), 0, fmt.Sprintf("s=%s:msg%d", []string{"1", "2", "n-2", "n-1"}[si], mi)}
+			var rr, ss []byte
+			var serr error
+			var okZa, okH bool
+			kind, pm := vx.Try(func() {
+				rr, ss, serr = sm2.SignZa(stream(b32(kv)), b32(d), za, msg)
+				okZa, _ = sm2.VerifyZa(px, py, za, msg, want.R, want.S)
+				okH, _ = sm2.VerifyHashed(px, py, e[:], want.R, want.S)
+			})
+			switch {
+			case kind != "":
+				r.Violation("wrap:edge-s:panic", pm, cs)
+			case serr != nil || !bytes.Equal(rr, want.R) || !bytes.Equal(ss, want.S):
+				r.Violation("wrap:edge-s:SignZa", fmt.Sprintf("SignZa does not return the standard's signature with s = %s: err=%v", cs.Shape, serr), cs)
+			case okZa != okH || !okZa:
+				r.Violation("wrap:edge-s:VerifyZa-differs-from-VerifyHashed", fmt.Sprintf("signature with %s: VerifyZa says %v, VerifyHashed on e = SM3(za||M) says %v", cs.Shape, okZa, okH), cs)
+			}
+			r.Shape("edge-s:" + cs.Shape)
+		}
+	}
 	// On a 32-bit target (the w32 part) the lengths at which a byte count shifted to a bit count inside an int wraps
 	// are 2^28 and 2^29 bytes: messages and ids of those lengths are given in one piece.
 	w32 := os.Getenv("VX_W32") != ""
-	if vx.Thorough() || w32 {
+	if true {
 		c13init()
 		k0 := c13keys[0]
 		// an id too long for ENTL is refused, however long: 2^28 and 2^29 bytes (bit lengths 2^31 and 2^32) and neighbours
@@ -312,6 +362,12 @@ func TestVX_C13(t *testing.T) {
 		mls := []int{1<<29 - 33, 1<<29 - 32, 1 << 29}
 		if w32 {
 			mls = []int{1<<28 - 33, 1<<28 - 1, 1 << 28, 1<<28 + 1}
+		} else {
+			big := int64(1<<32 + 3) // a message whose byte count no longer fits 32 bits, given in one piece
+			mls = append(mls, int(big))
+		}
+		if !vx.Thorough() && !w32 {
+			mls = mls[len(mls)-1:] // quick tier on a 64-bit target: only the message beyond 2^32 bytes
 		}
 		for _, ml := range mls {
 			n++
